@@ -126,6 +126,22 @@ def choose_op(rng, run, nodes, st, opts):
     r = rng.random()
     awaiting = opts.get("awaiting", False)
     can_emit = (not awaiting) or all(f is None or f.done() for f in run.emits)
+    if rng.random() < opts.get("p_rewire", 0.0):
+        # detach / re-attach an asynchronous node from its (only) producer while it may hold data, wait for a timer or a consumer
+        edges = []
+        for srcn in sources:
+            downs = [i for i, n in enumerate(nodes) if srcn in n.get("ups", [])]
+            if len(downs) == 1 and nodes[downs[0]].get("ups") == [srcn] and nodes[downs[0]]["kind"] in HOLDING \
+                    and nodes[downs[0]]["kind"] != "zipmax" and not nodes[downs[0]].get("callfail"):
+                edges.append((srcn, downs[0]))
+        if edges:
+            e = rng.choice(edges)
+            det = st.setdefault("detached", set())
+            if e in det:
+                det.discard(e)
+                return {"op": "connect", "up": e[0], "down": e[1]}
+            det.add(e)
+            return {"op": "disconnect", "up": e[0], "down": e[1]}
     if (pend or jobs) and can_emit and rng.random() < opts.get("p_multi", 0.0):
         # a completion and one or two emissions in ONE loop callback: the emission races the wake-ups the completion causes
         if jobs and (not pend or rng.random() < 0.6):
@@ -211,6 +227,13 @@ def run_adaptive(nodes, rng, n_ops, opts=None, flavour="future"):
             for _ in range(n_ops):
                 if script:
                     op = script.pop(0)
+                    if op["op"] == "complete-any":      # resolved against the run: finish a consumer, else a job, else let time pass
+                        if run.pending:
+                            op = {"op": "sinkdone", "tok": sorted(run.pending)[0]}
+                        elif run.jobs:
+                            op = {"op": "jobdone", "job": sorted(run.jobs)[0]}
+                        else:
+                            op = {"op": "advance", "dt": op.get("dt", 1)}
                     for sub in subops(op):
                         if sub["op"] == "emit":
                             st["val"] = max(st["val"], sub["val"] if isinstance(sub["val"], int) else 0)
@@ -321,7 +344,12 @@ def reference_case(case):
             nd.setdefault("f", ["id"])
         nodes.append(nd)
         remap[i] = len(nodes) - 1
-    ops = [dict(op, md=[], node=remap[op["node"]]) for op in elementary(case) if op["op"] == "emit"]
+    ops = []
+    for op in elementary(case):
+        if op["op"] == "emit":
+            ops.append(dict(op, md=[], node=remap[op["node"]]))
+        elif op["op"] in ("connect", "disconnect"):
+            ops.append({"op": op["op"], "up": remap[op["up"]], "down": remap[op["down"]]})
     return {"mode": "sync", "nodes": nodes, "ops": ops, "remap": remap}
 
 
